@@ -1,5 +1,6 @@
 SPECIFICATION LSpec
 CONSTANTS
+  PDiv = 1
   Keys = {1,2,3}
   Prios = {1,2}
   NIter = 1
